@@ -480,3 +480,76 @@ def get_function_ast(modname, qualname):
             raise HarnessError('AST: %s not found in %s' % (qualname, modname))
         node = found
     return node, path
+
+
+def _targets(st):
+    out = []
+    if isinstance(st, ast.Assign):
+        for t in st.targets:
+            for n in ast.walk(t):
+                if isinstance(n, ast.Name) and isinstance(n.ctx, ast.Store):
+                    out.append(n.id)
+    elif isinstance(st, ast.AugAssign) and isinstance(st.target, ast.Name):
+        out.append(st.target.id)
+    return out
+
+
+def slice_kernel(modname, qualname, names, guards=True, space=None):
+    """AST slicer: from the function `qualname` of repo module `modname`
+    extract, in source order (top level of the function body), the
+    assignments whose targets are all in `names` and (guards=True) the
+    `if` statements that only raise.  Returns (run, info) where run(env)
+    executes the slice in a namespace with the symbolic-aware builtins and
+    returns the final namespace.  A pattern that matches nothing is a harness
+    error (the encoding must be regenerated from source, never guessed)."""
+    node, path = get_function_ast(modname, qualname)
+    picked = []
+    found = set()
+    for st in node.body:
+        tg = _targets(st)
+        if tg and all(t in names for t in tg):
+            picked.append(st)
+            found.update(tg)
+        elif guards and isinstance(st, ast.If) and not st.orelse and \
+                all(isinstance(b, ast.Raise) for b in st.body):
+            used = set(n.id for n in ast.walk(st.test)
+                       if isinstance(n, ast.Name))
+            if used & set(names):
+                picked.append(st)
+    missing = set(names) - found
+    if missing:
+        raise HarnessError('AST slice of %s.%s: no assignment to %s' % (
+            modname, qualname, sorted(missing)))
+    clsname = qualname.split('.')[-2] if '.' in qualname else None
+    mod = ast.Module(body=picked, type_ignores=[])
+    mod = _Rewrite().visit(mod)
+    if clsname:
+        mod = _Mangle(clsname).visit(mod)
+    ast.fix_missing_locations(mod)
+    code = compile(mod, path + ':<slice %s>' % qualname, 'exec')
+    sp = space or TwinSpace()
+    src_lines = [ast.unparse(st) for st in picked]
+
+    def run(env):
+        g = {'__builtins__': sp.builtins, 'float': sym_float, 'int': sym_int}
+        g.update(env)
+        exec(code, g)
+        return g
+    info = {'file': os.path.relpath(path, REPO), 'qualname': qualname,
+            'statements': src_lines,
+            'sha256': hashlib.sha256('\n'.join(src_lines).encode())
+            .hexdigest()[:16]}
+    return run, info
+
+
+class _Mangle(ast.NodeTransformer):
+    """private name mangling (self.__x -> self._Class__x) for sliced code"""
+
+    def __init__(self, cls):
+        self.cls = cls.lstrip('_')
+
+    def visit_Attribute(self, node):
+        self.generic_visit(node)
+        if node.attr.startswith('__') and not node.attr.endswith('__'):
+            node.attr = '_%s%s' % (self.cls, node.attr)
+        return node
